@@ -68,6 +68,12 @@ def _norm_effect(e, ignore_kinds, ignore_calls):
         return e
     if e[0] == "expr":
         return None if "expr" in ignore_kinds else e
+    if e[0] == "foreach":
+        inner = []
+        for conds, fx, r in e[2]:
+            effs = [x for x in (_norm_effect(y, ignore_kinds, ignore_calls) for y in fx) if x is not None]
+            inner.append((tuple(sorted(map(repr, conds))), tuple(sorted(repr(x) for x in effs)), r))
+        return ("foreach", e[1], tuple(sorted(inner, key=repr)))
     return e
 
 
